@@ -402,6 +402,49 @@ func (e *Engine) lookup(st *State, fr *Frame, in *ssa.Lookup) bool {
 			key := showValue(idx)
 			if v, ok := obj.Entries[key]; ok {
 				val, found = v, TTrue
+				if f, ok := obj.Found[key]; ok {
+					found = f
+				}
+			} else if !obj.Fresh {
+				// input map, key not met before: the entry may or may not exist. Explore both, remembering the answer.
+				b := in.Block()
+				idxI := 0
+				for i, ins := range b.Instrs {
+					if ins == in {
+						idxI = i
+					}
+				}
+				st2 := st.clone()
+				o2 := obj.clone()
+				if o2.Found == nil {
+					o2.Found = map[string]Term{}
+				}
+				o2.Entries[key] = e.zeroOf(mt.Elem())
+				o2.Found[key] = TFalse
+				if ks, ok := idx.(VSym); ok {
+					o2.KeyTerms[key] = ks.T
+				}
+				st2.heap[m.Cell] = o2
+				if in.CommaOk {
+					fr.regs[in] = VTuple{[]Value{e.zeroOf(mt.Elem()), sym(TFalse)}}
+				} else {
+					fr.regs[in] = e.zeroOf(mt.Elem())
+				}
+				st2.addTrace(TraceEv{Kind: "maplookup.absent", Text: key, Pos: e.pos(in.Pos())})
+				e.runFrom(st2, fr, b, idxI+1)
+				o1 := obj.clone()
+				if o1.Found == nil {
+					o1.Found = map[string]Term{}
+				}
+				val = e.havoc(st, mt.Elem(), "mapval")
+				o1.Entries[key] = val
+				o1.Found[key] = TTrue
+				if ks, ok := idx.(VSym); ok {
+					o1.KeyTerms[key] = ks.T
+				}
+				st.heap[m.Cell] = o1
+				found = TTrue
+				st.addTrace(TraceEv{Kind: "maplookup.present", Text: key, Pos: e.pos(in.Pos())})
 			} else if obj.Fresh && allKeysConstDistinct(e, obj, idx) {
 				val, found = e.zeroOf(mt.Elem()), TFalse
 			} else {
@@ -491,9 +534,13 @@ func (e *Engine) mapUpdate(st *State, fr *Frame, in *ssa.MapUpdate) bool {
 		if n.Struct {
 			ks := showValue(key)
 			n.Entries[ks] = val
+			if n.Found != nil {
+				delete(n.Found, ks)
+			}
 			if kt, ok := key.(VSym); ok {
 				n.KeyTerms[ks] = kt.T
 			}
+			st.addTrace(TraceEv{Kind: "mapupdate", Text: ks, Pos: e.pos(in.Pos())})
 		} else {
 			kt, ok1 := key.(VSym)
 			if !ok1 {
@@ -544,8 +591,17 @@ func (e *Engine) mapDelete(st *State, m, key Value, pos string) {
 	}
 	n := obj.clone()
 	if n.Struct {
-		delete(n.Entries, showValue(key))
-		delete(n.KeyTerms, showValue(key))
+		if n.Fresh {
+			delete(n.Entries, showValue(key))
+			delete(n.KeyTerms, showValue(key))
+		} else {
+			// input map: remember that this key is now absent
+			if n.Found == nil {
+				n.Found = map[string]Term{}
+			}
+			n.Entries[showValue(key)] = VNil{}
+			n.Found[showValue(key)] = TFalse
+		}
 	} else if kt, ok := key.(VSym); ok {
 		if n.NilT.S != "" && !n.NilT.IsFalse() {
 			n.Arr = Ite(n.NilT, n.Arr, Store(n.Arr, kt.T, n.Absent))
@@ -623,6 +679,7 @@ func (e *Engine) typeAssert(st *State, fr *Frame, in *ssa.TypeAssert) bool {
 // Range over maps / strings (concrete structure only; symbolic maps need the loop rule in loops.go)
 
 type rangeIter struct {
+	arbitrary *types.Map
 	keys []Term
 	vals []Value
 	pos  int
@@ -639,14 +696,14 @@ func (e *Engine) rangeInit(st *State, fr *Frame, in *ssa.Range) bool {
 		if !ok {
 			break
 		}
-		if obj.Struct {
+		if obj.Struct && obj.Fresh {
 			for _, k := range obj.sortedKeys() {
 				it.keys = append(it.keys, obj.KeyTerms[k])
 				it.vals = append(it.vals, obj.Entries[k])
 			}
-			if !obj.Fresh {
-				st.notes = append(st.notes, "range over structured input map treats it as containing only touched entries at "+e.pos(in.Pos()))
-			}
+		} else if obj.Struct {
+			// input map with structured values: arbitrary-entry iteration under the generic loop rule
+			it.arbitrary = obj.Typ
 		} else {
 			it.sym = e.symRangeInit(st, fr, in, obj, m.Cell)
 		}
@@ -670,6 +727,26 @@ func (e *Engine) rangeNext(st *State, fr *Frame, in *ssa.Next) bool {
 	tt := in.Type().(*types.Tuple)
 	if it.sym != nil {
 		return e.symRangeNext(st, fr, in, it)
+	}
+	if it.arbitrary != nil {
+		if e.loopInvariants(fr.fn, headerOrdinal(in.Block())) == nil {
+			st.incomplete = fmt.Sprintf("range over an input map without a loop invariant (loop %d of %s) at %s", headerOrdinal(in.Block()), fr.fn.Name(), e.pos(in.Pos()))
+			e.endPath(st)
+			return false
+		}
+		// done, or an arbitrary entry (non-nil values for pointer-typed elements)
+		b := in.Block()
+		idxI := 0
+		for i, ins := range b.Instrs {
+			if ins == in {
+				idxI = i
+			}
+		}
+		st2 := st.clone()
+		fr.regs[in] = VTuple{[]Value{sym(TFalse), e.zeroOf(tt.At(1).Type()), e.zeroOf(tt.At(2).Type())}}
+		e.runFrom(st2, fr, b, idxI+1)
+		fr.regs[in] = VTuple{[]Value{sym(TTrue), e.havoc(st, it.arbitrary.Key(), "rangekey"), e.havoc(st, it.arbitrary.Elem(), "rangeval")}}
+		return true
 	}
 	// the iterator position is path state: keep it in the state's visits map keyed by iterator id
 	key := fmt.Sprintf("iter/%d", itv.ID)
